@@ -29,7 +29,7 @@ def boundary_value(rng, sname, dname):
 def gen(rng, tier):
     bn = [t[0] for t in bn_types()]
     prims = list(PRIMS)
-    reps = 8 if tier == "thorough" else 2
+    reps = 12 if tier == "thorough" else 10
     pairs = []
     # bnum -> prim (TryFrom), bnum -> bnum (BTryFrom), prim -> bnum at least as wide (From/TryFrom)
     for s in bn:
